@@ -152,6 +152,22 @@ def _s2(program, res):
                                     f"`{unparse(c)[:80]}` groups on user keys without dropna=False: pandas silently drops the "
                                     f"rows whose key is null (project loses that group; windowed extend computes NaN for it)", c)
     res.expect_count("C09-S2", "pandas groupby sites on user keys", n, 2)
+    # helpers of the executor that group by caller-supplied key lists (the sanity check that a project result is keyed by its group columns)
+    for m in pb.methods.values():
+        if m.name in ("_project_step", "_extend_step"):
+            continue
+        for c in ast.walk(m.node):
+            if isinstance(c, ast.Call) and isinstance(c.func, ast.Attribute) and c.func.attr == "groupby" and c.args \
+                    and isinstance(c.args[0], ast.Name) and c.args[0].id in m.params():
+                kw = {k.arg: k.value for k in c.keywords}
+                v = kw.get("dropna")
+                res.analysed(m)
+                if isinstance(v, ast.Constant) and v.value is False:
+                    res.ok("C09-S2", f"{m.name}: groupby({c.args[0].id}) keeps null keys")
+                else:
+                    res.fail_at("C09-S2", m, f"groupby-drops-null-keys:{m.name}:{c.args[0].id}",
+                                f"{m.qualname} groups by the caller's key list without dropna=False: with a null in every group's keys no group is left "
+                                f"(project(group_by=['g1','g2']) with g1 all null raises 'max() iterable argument is empty' on Pandas; SQL and Polars return the groups)", c)
     res.assumptions.append("pandas.DataFrame.groupby drops rows with a null key unless dropna=False (API contract, pandas >= 1.1)")
 
 
@@ -202,3 +218,6 @@ def run(program, res, tier):
     from ..report import Relabel
     from . import c04
     c04._s1c(program, Relabel(res, {"*": "C09-S4"}))
+    res.rule("C09-S5", "an extend that contains an aggregate anywhere is windowed (SQL emits OVER, so N rows stay N rows)")
+    from . import c26
+    c26.windowed_classification_rules(program, res, rule="C09-S5")
